@@ -70,6 +70,17 @@ def _check_no_links_with_parents(task: 'Task', new_parent: 'Task'):
                 raise RuntimeError(f"Task {t.id} is linked with task {linked.id}. Can't make linked task a parent")
 
 
+def _unique_objects(tasks):
+    m = set()
+    res = []
+    for t in tasks:
+        if id(t) not in m:
+            m.add(id(t))
+            res.append(t)
+
+    return res
+
+
 def _unique_tasks(tasks):
     m = set()
     res = []
@@ -833,7 +844,7 @@ class Task:
         Setter for predecessor tasks
         :param value: new predecessors
         """
-        value = _to_list(value)
+        value = _unique_objects(_to_list(value))
         _check_no_nones_in_list(value, 'predecessors')
 
         parents = self.all_parents
@@ -884,7 +895,7 @@ class Task:
         Setter for direct successors
         :param value: new direct successors
         """
-        value = _to_list(value)
+        value = _unique_objects(_to_list(value))
         _check_no_nones_in_list(value, 'successors')
 
         parents = self.all_parents
